@@ -276,7 +276,10 @@ pub fn exec_c04(plan: &C04Plan, st: &mut Stats) -> Option<Violation> {
                     m_ref_name = name.clone();
                 }
                 m_last = Some(now.clone());
-                gallery.push((name, now));
+                // keep one entry per distinct content (pure copies are identical to their source)
+                if !gallery.iter().rev().take(64).any(|(_, g)| *g == now) {
+                    gallery.push((name, now));
+                }
 
                 if m_ref.is_some() && m_last != m_ref {
                     st.inc("probe.last_is_disposable");
@@ -287,7 +290,7 @@ pub fn exec_c04(plan: &C04Plan, st: &mut Stats) -> Option<Violation> {
             }
         }
     }
-    if deferred.is_empty() {
+    if deferred.is_empty() || calls.len() > 3000 {
         return None;
     }
     // long histories: the same-state decoder costs a replay of the whole accepted
@@ -366,6 +369,7 @@ fn gen_signed_p(rng: &mut Rng, cfg: &GenCfg, fl: Flavour, ptype: PType, w: u16, 
         0 => [1, 0, 0, 0, 0, 0, 0],     // pure copy: a probe of the reference
         1 => [6, 0, 0, 0, 3, 0, 0],     // copies + intra signatures
         2 => [4, 3, 1, 1, 2, 1, 1],     // everything
+        4 => [0, 0, 0, 0, 1, 0, 0],     // intra only: content of its own, whatever the reference
         _ => [0, 3, 1, 1, 2, 1, 0],     // no not-coded macroblock at all
     };
     c.stuff16 = 0;
@@ -497,6 +501,60 @@ pub fn gen_c04(rng: &mut Rng, tier: Tier) -> C04Plan {
     plan
 }
 
+fn ultra_history(variant: u64) -> C04Plan {
+    let mut rng = Rng::new(0xC04_0000 + variant);
+    let opts = 1;
+    let mut cfg = GenCfg::for_opts(&mut rng, opts);
+    cfg.flavour = 0;
+    cfg.pei16 = 0;
+    cfg.stuff16 = 0;
+    cfg.density = 0;
+    let fl = Flavour::Sorenson { version: 0, size_code: 0 };
+    let (w, h) = (16u16, 16u16);
+    let mut plan = C04Plan { note: format!("ultra-long history (variant {variant}): I, 65 600+ disposable pictures, probes"), opts, pics: Vec::new(), steps: Vec::new() };
+    let mut tr: u8 = 0;
+    let i = gen_textured_intra(&mut rng, &cfg, fl.clone(), w, h, tr);
+    plan.pics.push(PlanPic::from_spec(i, vec![], "I").0);
+    plan.steps.push(Step::Pic { pic: 0, io_fault: None });
+    // a small pool of distinct disposable pictures (content differs from the reference), reused
+    let pool: Vec<usize> = (0..24)
+        .map(|k| {
+            // two thirds have content of their own (so that a disposable picture that
+            // wrongly became the reference is visible in the probes), one third are copies
+            let style = if k % 3 == 0 { 1 } else { 4 };
+            let s = gen_signed_p(&mut rng, &cfg, fl.clone(), PType::Disposable, w, h, 0, style);
+            plan.pics.push(PlanPic::from_spec(s, vec![], &format!("D (style {style})")).0);
+            plan.pics.len() - 1
+        })
+        .collect();
+    let n = 65_600 + (variant as usize) * 700;
+    for k in 0..n {
+        tr = tr.wrapping_add(1);
+        let base = pool[rng.usize(pool.len())];
+        // same bytes, own temporal reference: patch the TR field of a copy only when needed
+        let mut p = plan.pics[base].clone();
+        if let Some(sp) = p.spec.as_mut() {
+            sp.tr = if variant == 1 { rng.byte() } else { tr };
+        }
+        p.rebuild();
+        plan.pics.push(p);
+        plan.steps.push(Step::Pic { pic: plan.pics.len() - 1, io_fault: None });
+        if variant == 2 && k % 9973 == 17 {
+            plan.steps.push(Step::Cleanup);
+        }
+    }
+    for _ in 0..3 {
+        tr = tr.wrapping_add(1);
+        let s = gen_signed_p(&mut rng, &cfg, fl.clone(), PType::P, w, h, tr, 0);
+        plan.pics.push(PlanPic::from_spec(s, vec![], "P (style 0)").0);
+        plan.steps.push(Step::Pic { pic: plan.pics.len() - 1, io_fault: None });
+        let s = gen_signed_p(&mut rng, &cfg, fl.clone(), PType::Disposable, w, h, tr, 1);
+        plan.pics.push(PlanPic::from_spec(s, vec![], "D (style 1)").0);
+        plan.steps.push(Step::Pic { pic: plan.pics.len() - 1, io_fault: None });
+    }
+    plan
+}
+
 impl Property for C04 {
     type Plan = C04Plan;
     const ID: &'static str = "C04";
@@ -512,7 +570,7 @@ impl Property for C04 {
         gen_c04(rng, tier)
     }
     fn execute(plan: &C04Plan, st: &mut Stats) -> Option<Violation> {
-        st.sample(|| json!({"note": plan.note, "history": plan.steps.iter().map(|s| match s { Step::Cleanup => "cleanup".to_string(), Step::Pic { pic, io_fault } => format!("{} TR={}{}", plan.pics[*pic].note, plan.pics[*pic].spec.as_ref().map(|s| s.tr).unwrap_or(0), if io_fault.is_some() { " +io" } else { "" }) }).collect::<Vec<_>>()}));
+        st.sample(|| json!({"note": plan.note, "steps": plan.steps.len(), "history_first_40": plan.steps.iter().take(40).map(|s| match s { Step::Cleanup => "cleanup".to_string(), Step::Pic { pic, io_fault } => format!("{} TR={}{}", plan.pics[*pic].note, plan.pics[*pic].spec.as_ref().map(|s| s.tr).unwrap_or(0), if io_fault.is_some() { " +io" } else { "" }) }).collect::<Vec<_>>()}));
         exec_c04(plan, st)
     }
     fn shrink(plan: &C04Plan) -> Vec<C04Plan> {
@@ -539,6 +597,12 @@ impl Property for C04 {
             }
         }
         out
+    }
+    fn sweeps(tier: Tier) -> Vec<C04Plan> {
+        // ULTRA-long histories: more than 65 536 disposable pictures between two
+        // references (any 16-bit counter or key wraps), then probes of the reference.
+        let variants = if tier == Tier::Quick { 1 } else { 3 };
+        (0..variants).map(|v| ultra_history(v as u64)).collect()
     }
     fn assumptions() -> Vec<String> {
         vec![
